@@ -21,6 +21,7 @@ Reading guide
   * `subsets pairs`    the combinations `FuzzyFinder` executes, in execution order
 -/
 import OdmlModel.Model.Query
+import OdmlModel.Model.Finder
 import OdmlModel.Proofs.Query
 import OdmlModel.Proofs.QueryFull
 import OdmlModel.Proofs.QueryRepo
@@ -487,5 +488,69 @@ theorem repository_query_matches :
     queryRows (exportRdf ⟨false, []⟩ [dW, dW2]) ⟨[], [⟨.sec, "repository".toList, "http://x.org/t.xml".toList, []⟩], []⟩
       = .ok [] := by
   refine ⟨?_, ?_, ?_⟩ <;> rfl
+
+/-! ## The finder object: a search answers the call it is given (round 6)
+
+`Model/Finder.lean`: what a `FuzzyFinder` keeps between two calls (`graph`, `q_params`, `_subsets`)
+and `find` statement by statement.  The parameters of a call are what the caller's dictionary says
+when `find` is called (the harness hands the same dictionary object, changed in place, to the
+library). -/
+
+/-- **A search answers the call.**  Whatever the finder was used for before (`f` is any state: after
+    other searches, other dictionaries, refused or failed calls), a call with a valid mode, a graph
+    (passed now, or left out after an earlier call passed it) and parameters given one way reports
+    what `findRows` reports for THIS graph and the pairs the parameters say NOW - nothing of an
+    earlier question is left in the answer; and the finder keeps this graph. -/
+theorem search_answers_the_call (f : Finder) (c : Call) (g : Graph) (pairs : List Pair)
+    (hm : c.modeOk = true)
+    (hg : c.graph = some g ∨ (c.graph = none ∧ f.graph = some g))
+    (hp : (c.qStr = some pairs ∧ c.qParams = none) ∨ (c.qStr = none ∧ c.qParams = some pairs)) :
+    (f.find c).2 = liftQ (findRows g pairs) ∧ (f.find c).1.graph = some g := by
+  obtain ⟨m, cg, cs, cd⟩ := c
+  obtain ⟨fg, fp, fs⟩ := f
+  simp only at hm hg hp
+  subst hm
+  have hfr : findRows g pairs = findRows.go g (subsets pairs) := rfl
+  rcases hg with rfl | ⟨rfl, rfl⟩ <;> rcases hp with ⟨rfl, rfl⟩ | ⟨rfl, rfl⟩ <;>
+    simp [Finder.find, hfr]
+
+/-- A call with a valid mode that passes a graph leaves that graph on the finder - also when it is
+    refused afterwards for its parameters (`_validate_find_input_attributes` takes the graph first). -/
+theorem graph_kept_by_any_call (f : Finder) (c : Call) (g : Graph) (hm : c.modeOk = true)
+    (hg : c.graph = some g) : (f.find c).1.graph = some g := by
+  obtain ⟨m, cg, cs, cd⟩ := c
+  simp only at hm hg
+  subst hm; subst hg
+  cases cs <;> cases cd <;> simp [Finder.find]
+
+/-- ... so a search that leaves the graph out is a search on the graph of the previous call. -/
+theorem search_without_graph_uses_last_passed (f : Finder) (c : Call) (g : Graph) (pairs : List Pair)
+    (hm : c.modeOk = true) (hg : c.graph = some g) :
+    ((f.find c).1.find ⟨true, none, none, some pairs⟩).2 = liftQ (findRows g pairs) :=
+  (search_answers_the_call _ _ g pairs rfl (Or.inr ⟨rfl, graph_kept_by_any_call f c g hm hg⟩)
+    (Or.inr ⟨rfl, rfl⟩)).1
+
+/-- **The reporting clause over histories**: after ANY history of calls on one finder (searches in
+    either mode with any parameters, refused calls, calls whose queries could not be built), a
+    match search - parameters as a string or as a dictionary - on the export of `ds` reports exactly
+    the executed combinations of the pairs given now that have a hit, most specific first, each
+    with exactly the rows of the objects that carry all its pairs (`match_search_reports_exact`);
+    with `fuzzyPairs f` for `pairs` this is the fuzzy search (`fuzzy_search_reports_exact`). -/
+theorem search_reports_exact_after_any_history (hist : List Call) (ds : List DocT) (pairs : List Pair)
+    (viaString : Bool) (wf : WFDocs ds) (r : RdfRepr ds) (ro : RepoOK ds)
+    (hp : ∀ x ∈ pairs, fullPair x.kind x) :
+    ∃ out, ((({} : Finder).run hist).find
+        ⟨true, some (exportRdf ⟨false, []⟩ ds), if viaString then some pairs else none,
+         if viaString then none else some pairs⟩).2 = .ok out ∧
+      out.map (·.1) =
+        ((subsets pairs).filter fun c => !(directEval' ds (groupPairs c)).isEmpty).map groupPairs ∧
+      ∀ blk ∈ out, ∀ row, row ∈ blk.2 ↔ row ∈ directEval' ds blk.1 := by
+  obtain ⟨out, ho, h1, h2⟩ := match_search_reports_exact ds pairs wf r ro hp
+  refine ⟨out, ?_, h1, h2⟩
+  have h := (search_answers_the_call (({} : Finder).run hist)
+    ⟨true, some (exportRdf ⟨false, []⟩ ds), if viaString then some pairs else none,
+     if viaString then none else some pairs⟩ (exportRdf ⟨false, []⟩ ds) pairs rfl (Or.inl rfl)
+    (by cases viaString <;> simp)).1
+  rw [h, ho]; rfl
 
 end C20
